@@ -39,8 +39,10 @@ def cases(tier):
             yield {'n': n, 'r': max_ranks([2] * n), 'S': S, 'many': ns}
     # structured states with exact cancellations in their bond amplitudes: GHZ, Hadamard-rotated GHZ, GHZ with a Hadamard
     # gauge on every bond (the left environments of some prefixes have entries that sum to exactly zero)
+    # plotting switched on (a flag that must not change what is returned), more than 16 outcomes
+    yield {'n': 5, 'r': max_ranks([2] * 5), 'S': [0, 1, 2, 3, 4], 'plot': True}
     for n in ([2, 3, 4] if tier == 'quick' else [2, 3, 4, 5, 6]):
-        for kind in ('ghz', 'hghz', 'ghz-hgauge'):
+        for kind in ('ghz', 'hghz', 'ghz-hgauge', 'phase-product', 'phase-ghz'):
             for k in range(1, n + 1):
                 for S in itertools.combinations(range(n), k):
                     yield {'n': n, 'r': [1] + [2] * (n - 1) + [1], 'S': list(S), 'struct': kind}
@@ -72,6 +74,25 @@ def run_case(case, seed):
             for a in range(2):
                 c[0 if i == 0 else a, a, 0, 0 if i == n - 1 else a] = 1.0 / np.sqrt(2) if i == 0 else 1.0
             cores.append(c)
+        if case['struct'] in ('phase-product', 'phase-ghz'):
+            # hand-built states whose FIRST core is stored with a real dtype while later cores carry genuine phases
+            cores = []
+            for i in range(n):
+                rl = 1 if (i == 0 or case['struct'] == 'phase-product') else 2
+                rr = 1 if (i == n - 1 or case['struct'] == 'phase-product') else 2
+                c = np.zeros((rl, 2, 1, rr), dtype=float if i == 0 else complex)
+                if case['struct'] == 'phase-product':
+                    th_ = 0.5 + 0.3 * i
+                    c[0, 0, 0, 0] = np.cos(th_); c[0, 1, 0, 0] = np.sin(th_) * (1.0 if i == 0 else np.exp(1j * (0.7 + i)))
+                else:
+                    for a in range(2):
+                        ph = 1.0 if (i == 0 or a == 0) else np.exp(1j * (0.4 + 0.9 * i))
+                        c[0 if i == 0 else a, a, 0, 0 if i == n - 1 else a] = (1.0 / np.sqrt(2) if i == 0 else 1.0) * ph
+                    if 0 < i < n - 1 or (i == n - 1 and n > 1):
+                        # mix the two branches on the later cores so that the phases matter for the probabilities
+                        Hm = np.array([[1.0, 1.0], [1.0, -1.0]]) / np.sqrt(2)
+                        c = np.einsum('st,atcb->ascb', Hm, c)
+                cores.append(c)
         if case['struct'] == 'hghz':
             cores = [np.einsum('st,atcb->ascb', H2, c) for c in cores]
         elif case['struct'] == 'ghz-hgauge':
@@ -93,6 +114,8 @@ def run_case(case, seed):
     r.nontrivial = True
     if case.get('many'):
         return run_many(r, qc, st, n, S, k, case['many'], rng)
+    if case.get('plot'):
+        return _run_state(r, qc, st, n, S, k, second_round=False, plot=True)
     return _run_state(r, qc, st, n, S, k, second_round=True)
 
 
@@ -160,7 +183,7 @@ def run_many(r, qc, st, n, S, k, ns, rng):
     return r
 
 
-def _run_state(r, qc, st, n, S, k, second_round):
+def _run_state(r, qc, st, n, S, k, second_round, plot=False):
     s0 = snap(st)
     psi = vec(st).reshape([2] * n)
     p = np.abs(psi) ** 2
@@ -218,7 +241,7 @@ def _run_state(r, qc, st, n, S, k, second_round):
         np.random.rand = fake
         try:
             with r.op('sampling:call'):
-                smp, prob = qc.sampling(st, list(S), U.shape[0])
+                smp, prob = qc.sampling(st, list(S), U.shape[0], plot_tf=True) if plot else qc.sampling(st, list(S), U.shape[0])
                 ws, wp = oracle(U)
                 smp = np.asarray(smp); prob = np.asarray(prob)
                 r.true('sampling:variates-requested-once', len(calls) == 1, 'np.random.rand called %d times' % len(calls))
